@@ -403,7 +403,8 @@ func main() {
 	r.Assume("fake pools/connections always succeed and both master and replica are up, so routing is decided by the proxy alone (no fallback to the master)")
 	r.Assume("read-only users outside a transaction are documented (docs/faq.md) to be served by replicas even for hinted / locking reads; they are observed, not judged")
 	r.Assume("only the documented hint spelling /*master*/ (any letter case) is judged; /*+ master */ is observed only")
-	if r.Count("routed_replica_plain") == 0 || r.Count("routed_master_lock") == 0 {
+	// self-test of the harness; when the run has unexplained violations they are the verdict
+	if r.Violations() == 0 && (r.Count("routed_replica_plain") == 0 || r.Count("routed_master_lock") == 0) {
 		ev.Fatalf("vacuous: plain reads on replica=%d, locking reads on master=%d", r.Count("routed_replica_plain"), r.Count("routed_master_lock"))
 	}
 	r.Finish()
